@@ -2,6 +2,7 @@ package main
 
 import (
 	"fmt"
+	"go/ast"
 	"go/types"
 	"strconv"
 	"strings"
@@ -240,6 +241,24 @@ func VerifyFunction(p *Program, db *ContractDB, fc *FnContract) *FnResult {
 		}
 		o.Detail = en.Text
 	}
+	// the declared frame (assigns clauses) is what call sites havoc; it must cover everything the body changes
+	if !fc.AssignsAll && fc.Opts["noframe"] == "" && (len(fc.Ensures) > 0 || len(fc.Assigns) > 0) {
+		call := &ast.CallExpr{Fun: ast.NewIdent("frame_only")}
+		for _, a := range fc.Assigns {
+			if strings.HasSuffix(strings.TrimSpace(a.Text), "[*]") {
+				call.Args = append(call.Args, &ast.CallExpr{Fun: ast.NewIdent("elems"), Args: []ast.Expr{a.Expr}})
+				continue
+			}
+			call.Args = append(call.Args, a.Expr)
+		}
+		t, err := env2.Bool(call)
+		if err != nil {
+			res.Err = fmt.Errorf("%s: assigns frame: %v", fc.Name, err)
+			return res
+		}
+		o := x.C.AddObligation(fc.Name+"#post:assigns-frame", "frame", fc.Name, st.PC, x.C.Name("frame", t), "nothing outside the declared assigns clauses changes")
+		o.Detail = "assigns frame"
+	}
 	// size hints for replayable models: small slices
 	var hints strings.Builder
 	n0 := len(x.C.decls)
@@ -344,11 +363,7 @@ func (x *Exec) applyContract(fr *Frame, st *State, fn *ssa.Function, fc *FnContr
 func (x *Exec) havocLValue(env *EvalEnv, st *State, cl Clause) error {
 	txt := strings.TrimSpace(cl.Text)
 	if strings.HasSuffix(txt, "[*]") {
-		cl2, err := parseClause(strings.TrimSuffix(txt, "[*]"))
-		if err != nil {
-			return err
-		}
-		v, err := env.Eval(cl2.Expr)
+		v, err := env.Eval(cl.Expr)
 		if err != nil {
 			return err
 		}
@@ -360,12 +375,7 @@ func (x *Exec) havocLValue(env *EvalEnv, st *State, cl Clause) error {
 		r, hs := x.elemRegion(elem)
 		h := x.heapGet(st, r, hs)
 		fresh := x.C.Fresh("hv_elems", SArr(SIdx, x.C.SortOf(elem)))
-		// only indices within [off, off+len) change
-		x.C.usesQuant = true
-		old := Select(h, SlBase(tv.T))
-		q := fmt.Sprintf("(forall ((j!h (_ BitVec 64))) (=> (not (and (bvuge j!h %s) (bvult (bvsub j!h %s) %s))) (= (select %s j!h) (select %s j!h))))",
-			SlOff(tv.T).S, SlOff(tv.T).S, SlLen(tv.T).S, fresh.S, old.S)
-		x.C.Assume(Raw(SBool, q), "assigns "+txt+": elements outside the slice unchanged")
+		// the whole backing array may change (same meaning as elems(s) in frame_only); ensures clauses say more
 		x.heapSet(st, r, Store(h, SlBase(tv.T), fresh))
 		return nil
 	}
